@@ -23,6 +23,8 @@ type Cfg struct {
 	Cold   uint32  `json:"cold_factor"`
 	// Interval: StatIntervalInMs of the warm-up rule (0 = default, one second). The threshold is tokens per interval.
 	Interval uint32 `json:"interval_ms,omitempty"`
+	// Batch: tokens per request of the saturating demand (0 = 1)
+	Batch uint32 `json:"batch,omitempty"`
 	// memory adaptive
 	LowT    int64 `json:"low_t,omitempty"`
 	HighT   int64 `json:"high_t,omitempty"`
@@ -39,7 +41,7 @@ func (P) Engine() string { return "E1" }
 
 func (P) Describe() harness.Description {
 	return harness.Description{
-		MustHit: []string{"cold_start_checked", "warmed_up_checked", "memory_reading_injected", "statistic_window_of_several_seconds"},
+		MustHit: []string{"cold_start_checked", "warmed_up_checked", "memory_reading_injected", "statistic_window_of_several_seconds", "saturating_demand_in_requests_of_several_tokens"},
 		Level:   "exploration",
 		Rule: "case = warm-up rule (threshold 0.5-60 incl. fractional and below the cold factor, period 1-10 s, cold factor 0 (default), 2-5, now and then 10-100, statistic interval 1 s or 2-5 s) with a demand history of phases in virtual seconds (idle, saturating demand at four instants per second, steady single-token demand once per second), or a memory-adaptive rule (thresholds, water marks) with a sweep of injected memory readings. " +
 			"Warm-up: admitted tokens in every aligned statistic window <= threshold; first second after an idle of >= 2*period+2 s admits <= ceil(T/coldFactor)+1; the last second of a saturating phase of >= 2*period+5 s admits >= floor(T); a steady single-token demand of >= 4*period+10 s is admitted at least once when T >= 1; the effective threshold (overlay accessor) is finite, >= 0 and <= T. " +
@@ -95,6 +97,9 @@ func (P) Gen(rng *sim.Rng, tier string) *harness.Case {
 		if rng.Chance(0.25) {
 			cfg.Interval = uint32([]int{2000, 2000, 3000, 5000}[rng.Intn(4)]) // a statistic window of several seconds
 		}
+		if rng.Chance(0.25) {
+			cfg.Batch = uint32(rng.Range(2, 3)) // the saturating demand comes in requests of several tokens
+		}
 		for n := rng.Range(3, 8); len(ops) < n; {
 			switch rng.Intn(3) {
 			case 0:
@@ -109,23 +114,24 @@ func (P) Gen(rng *sim.Rng, tier string) *harness.Case {
 	return &harness.Case{Cfg: harness.MustJSON(cfg), Callers: [][]harness.Op{ops}}
 }
 
-func effective(o *harness.Outcome, step int) (float64, bool) {
+func effective(o *harness.Outcome, step int, batch uint32) (float64, bool) {
 	var v float64
 	ok := false
 	harness.Call(o, "C11.panic", step, func() {
 		tcs := flow.VerifControllersFor("res-0")
 		if len(tcs) == 1 && tcs[0].FlowCalculator() != nil {
-			v = tcs[0].FlowCalculator().CalculateAllowedTokens(1, 0)
+			// (reading the effective threshold synchronises the warm-up bucket like a request of that size does)
+			v = tcs[0].FlowCalculator().CalculateAllowedTokens(batch, 0)
 			ok = true
 		}
 	})
 	return v, ok
 }
 
-func request(o *harness.Outcome, step int) bool {
+func request(o *harness.Outcome, step int, batch uint32) bool {
 	admitted := false
 	harness.Call(o, "C11.panic", step, func() {
-		e, _ := sentinel.Entry("res-0")
+		e, _ := sentinel.Entry("res-0", sentinel.WithBatchCount(batch))
 		if e != nil {
 			admitted = true
 			e.Exit()
@@ -177,8 +183,13 @@ func (P) Exec(c *harness.Case) *harness.Outcome {
 	ref := &model.WindowLog{L: 500, I: 10000}
 	idleFor := uint64(1 << 30) // seconds without any admission demand (initially: forever)
 	sawCold, sawFull := false, false
-	checkEff := func(step int) bool {
-		eff, ok := effective(o, step)
+	B := uint32(1)
+	if cfg.Batch >= 2 && cfg.Batch <= 16 {
+		B = cfg.Batch
+		o.Probe("saturating_demand_in_requests_of_several_tokens")
+	}
+	checkEff := func(step int, batch uint32) bool {
+		eff, ok := effective(o, step, batch)
 		if o.Failed() {
 			return false
 		}
@@ -192,12 +203,12 @@ func (P) Exec(c *harness.Case) *harness.Outcome {
 		}
 		return true
 	}
-	admit := func(step int) bool {
+	admitN := func(step int, n uint32) bool {
 		now := clk.NowMs()
-		if !request(o, step) {
+		if !request(o, step, n) {
 			return false
 		}
-		ref.Add(now, model.KPass, 1)
+		ref.Add(now, model.KPass, int64(n))
 		lo, hi := ref.Range(now, 1000)
 		if W > 1 {
 			lo, hi = now-now%uint64(W*1000), now
@@ -207,6 +218,7 @@ func (P) Exec(c *harness.Case) *harness.Outcome {
 		}
 		return true
 	}
+	admit := func(step int) bool { return admitN(step, 1) }
 	for step, op := range c.Callers[0] {
 		secs := int(op.N)
 		switch op.K {
@@ -219,6 +231,7 @@ func (P) Exec(c *harness.Case) *harness.Outcome {
 		case "saturate":
 			per := int(math.Ceil(T)) + 2
 			lastWindow := 0
+			var recent []int // tokens admitted per window
 			if W > 1 {
 				// start on a window boundary and run whole windows
 				if r := clk.NowMs() % uint64(W*1000); r != 0 {
@@ -230,12 +243,12 @@ func (P) Exec(c *harness.Case) *harness.Outcome {
 			for s := 0; s < secs; s += W {
 				got := 0
 				for q := 0; q < 4*W; q++ {
-					if !checkEff(step) {
+					if !checkEff(step, B) {
 						return o
 					}
 					for i := 0; i < per; i++ {
-						if admit(step) {
-							got++
+						if admitN(step, B) {
+							got += int(B)
 						}
 						if o.Failed() {
 							return o
@@ -253,13 +266,28 @@ func (P) Exec(c *harness.Case) *harness.Outcome {
 					}
 				}
 				lastWindow = got
+				recent = append(recent, got)
 				ref.Prune(clk.NowMs(), 12000)
 			}
 			idleFor = 0
-			if secs >= int(2*cfg.Period+5)+3*W && T >= 1 {
+			// (requests of B tokens: what fits under the threshold is the largest multiple of B; a cold rate below one
+			// request admits nothing and so never warms up - the property promises single-token demand only there)
+			if secs >= int(2*cfg.Period+5)+3*W && T >= 1 && (B == 1 || math.Floor(T/cold) > float64(B)) {
 				o.Probe("warmed_up_checked")
-				if float64(lastWindow) < math.Floor(T) {
-					o.Fail("C11.never-warms-up", step, "after %d s of saturating demand (warm-up period %d s, statistic window %d s) the last window admitted %d tokens, configured threshold %v", secs, cfg.Period, W, lastWindow, T)
+				// with requests of several tokens what passes at the full rate is a little less than what refills the
+				// bucket, which then creeps over the warning line and back: the full rate is reached, not held in every
+				// single window - the best of the last four windows counts
+				best := lastWindow
+				for i := len(recent) - 1; i >= 0 && i >= len(recent)-4; i-- {
+					if recent[i] > best {
+						best = recent[i]
+					}
+				}
+				if B == 1 {
+					best = lastWindow
+				}
+				if float64(best) < math.Floor(T)-float64(B-1) {
+					o.Fail("C11.never-warms-up", step, "after %d s of saturating demand (warm-up period %d s, statistic window %d s) the last windows admitted at most %d tokens, configured threshold %v", secs, cfg.Period, W, best, T)
 					return o
 				}
 				if sawCold {
@@ -269,7 +297,7 @@ func (P) Exec(c *harness.Case) *harness.Outcome {
 		case "steady":
 			got := 0
 			for s := 0; s < secs; s++ {
-				if !checkEff(step) {
+				if !checkEff(step, 1) {
 					return o
 				}
 				if admit(step) {
@@ -321,7 +349,7 @@ func execMemory(c *harness.Case, o *harness.Outcome, cfg *Cfg, clk *sim.Clock) {
 		m := int64(op.N)
 		system_metric.SetSystemMemoryUsage(m)
 		o.Fault("memory_reading_injected")
-		eff, ok := effective(o, step)
+		eff, ok := effective(o, step, 1)
 		if o.Failed() || !ok {
 			return
 		}
@@ -385,7 +413,7 @@ func execMemory(c *harness.Case, o *harness.Outcome, cfg *Cfg, clk *sim.Clock) {
 		}
 		got := 0
 		for i := 0; i < int(cfg.LowT)+3; i++ {
-			if request(o, step) {
+			if request(o, step, 1) {
 				got++
 			}
 			if o.Failed() {
